@@ -22,6 +22,14 @@ def run(ctx, rep):
     rep.rule('D2.root', 'the root function is partial_derivative_scalar(u, v_i) - y_i with y from the first and v from the second argument; bracket inside [0, 1]')
     rep.rule('D2.rank', 'the value returned to brentq has rank 0 (NumPy >= 2 refuses a size-1 array)')
     rep.rule('D3.dispatch', 'Frank / Gumbel use the generic search through super() outside their independence shortcut; shortcuts return the probability argument')
+    rep.rule('D4.values', 'interval abstract interpretation of the closed-form inverses over a partition of (theta, y, v): Clayton\'s result '
+             'lies in [0, 1]; at the independence parameter percent_point(y, v) = y (proved, refuted (definite) or undecided)')
+    from . import ivcases
+    ivcases.refine(ctx)
+    cl = ivcases.ppf_clauses()
+    n = ivcases.run_family_clauses(ctx, rep, 'D4.values', 'percent_point', cl[:1], ('Clayton',))
+    n += ivcases.run_family_clauses(ctx, rep, 'D4.values', 'percent_point', cl[1:], ('Gumbel', 'Independence'))
+    rep.floor('D4.values', 'family x clause evaluations', n, 3)
     fn = prog.method(BIV, 'percent_point', inherited=False)
     yp, vp = fn.params[1], fn.params[2]
     loops = [n for n in walk_no_nested(fn.node) if isinstance(n, ast.For)]
